@@ -726,6 +726,11 @@ def _history(rng, core, mode, long=False):
         for o in b:
             if rng.random() < 0.15:
                 o[1] = None if (not opq and rng.random() < 0.3) else rng.randrange(1, 80) / 2
+    # a batch may END in a missing reading (the cutoff is the batch's last time point all the same)
+    if not opq:
+        for b in batches:
+            if rng.random() < 0.15:
+                b[-1][1] = None
     if core == "opaque:pipeline_impute" and batches and not any(o[1] is None for b in batches for o in b):
         b = rng.choice(batches)
         b[rng.randrange(len(b))][1] = None            # at least one missing value arrives in a later batch
